@@ -206,6 +206,10 @@ func e1BaseGrid(tier string) []e1Grid {
 		e1Grid{with(mcfg("ll", false, 8, "h264"), 500, 100), "timing"},
 		e1Grid{with(mcfg("fmp4", false, 4, "h264", "aac48"), 2000, 0), "inter"},
 		e1Grid{with(mcfg("mpegts", false, 5, "h264"), 250, 0), "timing"},
+		// SegmentMinDuration below PartMinDuration (its default of 200 ms where none is given, or an explicit larger one)
+		e1Grid{with(mcfg("fmp4", false, 4, "h264"), 100, 0), "timing"},
+		e1Grid{with(mcfg("ll", false, 8, "h264", "aac44"), 100, 200), "inter"},
+		e1Grid{with(mcfg("fmp4", false, 3, "aac48"), 60, 0), "audio"},
 	)
 	if tier == "thorough" {
 		g = append(g,
